@@ -145,4 +145,20 @@ func (d *connDriver) collect() (pkts []model.Packet, rest []byte, closed bool, e
 	return pkts, rest, d.c.Closed(), nil
 }
 
+// late waits up to wait for output that was written after the server had gone back to reading (a reply
+// sent from another goroutine than the one that reads); it returns what arrived.
+func (d *connDriver) late(wait time.Duration) (pkts []model.Packet, rest []byte, closed bool) {
+	deadline := time.Now().Add(wait)
+	for {
+		all, _ := d.c.Written()
+		if len(all) > d.seen || d.c.Closed() || time.Now().After(deadline) {
+			fresh := all[d.seen:]
+			pkts, rest = model.SplitStream(fresh)
+			d.seen = len(all) - len(rest)
+			return pkts, rest, d.c.Closed()
+		}
+		time.Sleep(2 * time.Millisecond)
+	}
+}
+
 func timeAfter(d time.Duration) <-chan time.Time { return time.After(d) }
